@@ -128,6 +128,25 @@ def run(v, O):
             out.append((f'to({label}) refused: a linear conversion afterwards', O.eq(q.value(v.u2), v.x * v.r2, 1e-9)))
     return out
 '''
+EMPTY_SRC = '''
+def run(v, O):
+    # an empty target (None, {}, all-zero dimension list, Dimensions()) means "a plain number": named dimensionless units are folded into the value, dimensional sources are refused and stay as they were
+    from scinumtools.units import Dimensions
+    out = []
+    targets = (('None', None), ('{}', {}), ('zero dimension list', [0] * 8), ('Dimensions()', Dimensions()))      # the empty string is not a unit expression (it crashes the parser on every tree): not judged
+    for label, t in targets:
+        q = Quantity(v.x, v.u)
+        if v.dimless:
+            r = q.to(t)
+            out.append((f'to({label}): value = x F(u)', O.eq(r.value(), v.x * v.fu, 1e-9)))
+            out.append((f'to({label}): no units left', O.same(r.units(), None)))
+        else:
+            units0 = q.units()
+            out.append((f'to({label}) refused', O.raises(lambda: q.to(t))))
+            out.append((f'to({label}) refused: value unchanged', O.eq(q.value(), v.x)))
+            out.append((f'to({label}) refused: units unchanged', O.same(q.units(), units0)))
+    return out
+'''
 AFTER_SRC = '''
 def run(v, O):
     # a conversion that is refused, or a reciprocal one, must not influence the conversions that follow on the same object
@@ -237,6 +256,15 @@ def scenarios(tier, seed):
             w = base + (str(power) if power != 1 else '')
             S.append(Scenario(f'prefix/{u}->{w}', LINEAR_SRC, {'x': 'real'}, consts={'u': u, 'w': w, 'm': w, 'ruw': 10.0 ** (n * power)}, preamble=PRE,
                               what=f'{u} -> {w} with the published prefix exponent {n}', samples=1))
+    # symbols of the unit systems with integer and fractional exponents, converted to the base unit with the same exponent
+    from scinumtools.units.settings import QUANTITY_UNITS as _QU
+    for sym, base in (('#ALEN', 'm'), ('#CLEN', 'm'), ('#ATIM', 's'), ('#CMAS', 'g'), ('#AMAS', 'g')):
+        if sym not in _QU:
+            continue
+        mag = float(_QU[sym][0])
+        for ex, e in (('', 1.0), ('2', 2.0), ('-1', -1.0), ('1:2', 0.5), ('3:2', 1.5), ('-3:2', -1.5)):
+            S.append(Scenario(f'system-unit/{sym}{ex}->{base}{ex}', LINEAR_SRC, {'x': 'real'}, ['v.x > 0'], consts={'u': sym + ex, 'w': base + ex, 'm': ('k' + base + ex), 'ruw': mag ** e}, preamble=PRE,
+                              what=f'{sym}{ex} -> {base}{ex} (table factor raised to the exponent)', samples=1))
     for u, w in (('m', 'm'), ('m', 'cm'), ('km2', 'km2'), ('kg*m2/s2', 'kg*m2/s2'), ('J', 'erg'), ('km/h', 'm/s'), ('s', 's')):
         ruw = unitkit.ref_parse(u).value() / unitkit.ref_parse(w).value()
         S.append(Scenario(f'qtarget/{u}->{w}', QTARGET_SRC, {'x': 'real', 'k': 'real'}, ['v.k > 0'], consts={'u': u, 'w': w, 'ruw': ruw}, preamble=PRE + 'from scinumtools.units import Unit\n',
@@ -249,6 +277,9 @@ def scenarios(tier, seed):
         r2 = (fu / unitkit.ref_parse(u2).value()) if u2 else None
         S.append(Scenario(f'qtarget-other-dimension/{u}->{w}', QMIS_SRC, {'x': 'real', 'k': 'real'}, ['v.k > 0', 'v.x > 0'], consts={'u': u, 'w': w, 'u2': u2, 'recip': recip, 'fu': fu, 'fw': fw, 'r2': r2},
                           preamble=PRE + 'from scinumtools.units import Unit\n', what=f'{u} converted to a quantity target k {w} of {"reciprocal" if recip else "another"} dimension', samples=2))
+    for u, dimless in (('%', True), ('ppth', True), ('[pi]', True), ('m', False), ('kg*m/s2', False), ('Hz', False), ('rad', False)):
+        S.append(Scenario(f'empty-target/{u}', EMPTY_SRC, {'x': 'real'}, ['v.x > 0'], consts={'u': u, 'dimless': dimless, 'fu': unitkit.ref_parse(u).value()}, preamble=PRE,
+                          what=f'{u} converted to an empty target', samples=1))
     for u, w, bad, recip in (('km', 'm', 's', None), ('kHz', 'Hz', 'm', 'ms'), ('g/cm3', 'kg/m3', 'kW*h', None), ('cm-1', 'm-1', 'kg', 'um'), ('Ohm', 'kOhm', None, 'S'), ('J', 'erg', 'K', None),
                               ('s', 'ms', None, 'Hz'), ('km/h', 'm/s', 'm', None)):
         ruw = unitkit.ref_parse(u).value() / unitkit.ref_parse(w).value()
